@@ -414,6 +414,38 @@ impl Prop for IndexOnly {
             }
         }
         ensure!(r.read_nth_shape(n).is_none(), "nth-out-of-range", "read_nth_shape({}) returns something", n);
+        // the consuming bulk routes follow the index as well
+        match open_mem(&enc.shp, Some(&enc.shx)).map_err(|e| Fail::new("open-error", err_str(&e)))?.read() {
+            Ok(v) => {
+                ensure!(v.len() == n, "count", "ShapeReader::read() returns {} shapes for {} index entries", v.len(), n);
+                for (i, s) in v.iter().enumerate() {
+                    ensure!(view_shape(s) == seq[i], "wrong-record", "ShapeReader::read(): item {} differs from index entry {} (physical order {:?})", i, i, m.order);
+                }
+            }
+            Err(e) => fail!("valid-record-rejected", "ShapeReader::read(): {}", err_str(&e)),
+        }
+        if m.ty != Ty::Null && m.recs.iter().all(|r| r.geom.ty == m.ty) {
+            struct ReadAs<'a>(&'a [u8], &'a [u8], &'a [Geom], &'a [usize]);
+            impl KindFn for ReadAs<'_> {
+                type Out = Result<(), Fail>;
+                fn call<K: Kind>(self) -> Self::Out
+                where
+                    Error: From<<K as TryFrom<Shape>>::Error>,
+                {
+                    match open_mem(self.0, Some(self.1)).map_err(|e| Fail::new("open-error", err_str(&e)))?.read_as::<K>() {
+                        Ok(v) => {
+                            ensure!(v.len() == self.2.len(), "count", "ShapeReader::read_as() returns {} shapes for {} index entries", v.len(), self.2.len());
+                            for (i, s) in v.iter().enumerate() {
+                                ensure!(s.view() == self.2[i], "wrong-record", "ShapeReader::read_as(): item {} differs from index entry {} (physical order {:?})", i, i, self.3);
+                            }
+                            Ok(())
+                        }
+                        Err(e) => fail!("valid-record-rejected", "ShapeReader::read_as(): {}", err_str(&e)),
+                    }
+                }
+            }
+            dispatch(m.ty, ReadAs(&enc.shp, &enc.shx, &seq, &m.order))?;
+        }
         // Iterator adaptors follow the index too
         adaptor_routes("indexed", || open_mem(&enc.shp, Some(&enc.shx[..])), &seq, |e, g| if e == g { Ok(()) } else { Err("differs from the plain iteration item".to_string()) })
             .map_err(|(k, msg)| Fail::new(if k == "shape-differs" { "wrong-record" } else { &k }, msg))?;
@@ -437,6 +469,15 @@ impl Prop for IndexOnly {
             let p = crate::common::scratch_dir().join("c14.shp");
             std::fs::write(&p, &enc.shp).map_err(|e| Fail::new("disk-io", e.to_string()))?;
             std::fs::write(p.with_extension("shx"), &enc.shx).map_err(|e| Fail::new("disk-io", e.to_string()))?;
+            match shapefile::read_shapes(&p) {
+                Ok(v) => {
+                    ensure!(v.len() == n, "count", "read_shapes(path) returns {} shapes for {} index entries", v.len(), n);
+                    for (i, s) in v.iter().enumerate() {
+                        ensure!(view_shape(s) == seq[i], "wrong-record", "read_shapes(path): item {} differs from index entry {}", i, i);
+                    }
+                }
+                Err(e) => fail!("valid-record-rejected", "read_shapes(path): {}", err_str(&e)),
+            }
             let mut pr = shapefile::ShapeReader::from_path(&p).map_err(|e| Fail::new("open-error", err_str(&e)))?;
             ensure!(pr.shape_count().ok() == Some(n), "shape-count", "from_path: shape_count {:?} for {} index entries", pr.shape_count().ok(), n);
             let (items, over) = drain_capped(pr.iter_shapes(), n + 2);
